@@ -21,10 +21,58 @@ type (
 	Locker    = sync.Locker
 )
 
-func NewCond(l Locker) *Cond                                   { return sync.NewCond(l) }
-func OnceFunc(f func()) func()                                 { return sync.OnceFunc(f) }
-func OnceValue[T any](f func() T) func() T                     { return sync.OnceValue(f) }
-func OnceValues[T1, T2 any](f func() (T1, T2)) func() (T1, T2) { return sync.OnceValues(f) }
+func NewCond(l Locker) *Cond { return sync.NewCond(l) }
+
+// OnceFunc, OnceValue and OnceValues are rebuilt on the modelled Once (the
+// real ones would park a latecomer on a mutex of the standard library while
+// the first caller sits at a yield point inside f, which the simulator cannot
+// see). Semantics as in package sync: f runs once; if it panicked, every call
+// panics with the same value.
+func OnceFunc(f func()) func() {
+	var (
+		once  Once
+		valid bool
+		p     any
+	)
+	g := func() {
+		defer func() {
+			p = recover()
+			if !valid {
+				panic(p)
+			}
+		}()
+		f()
+		f = nil
+		valid = true
+	}
+	return func() {
+		once.Do(g)
+		if !valid {
+			panic(p)
+		}
+	}
+}
+
+func OnceValue[T any](f func() T) func() T {
+	var result T
+	do := OnceFunc(func() { result = f() })
+	return func() T {
+		do()
+		return result
+	}
+}
+
+func OnceValues[T1, T2 any](f func() (T1, T2)) func() (T1, T2) {
+	var (
+		r1 T1
+		r2 T2
+	)
+	do := OnceFunc(func() { r1, r2 = f() })
+	return func() (T1, T2) {
+		do()
+		return r1, r2
+	}
+}
 
 type Mutex struct {
 	mu sync.Mutex
